@@ -3,12 +3,13 @@ CONSTANTS
   MaxDepositEvents = 3
   DepositBlocks = {1, 2}
   DepositStates = {"ok", "ok7", "young", "swept", "conf5", "conferr", "sweptc5", "missing", "other"}
-  DepositLimits = {0, 1, 2}
+  DepositLimits = {0, 2}
+  DepositFilters = {"this", "all"}
   DepositFlags <- AllFlags
   RedemptionHistories <- Histories
   RedemptionAges = {1, 3, 5, 6, 8}
   RedemptionDelays = {0, 4}
-  RedemptionLimits = {0, 1, 2, 3}
+  RedemptionLimits = {0, 1, 2}
   RequestMinAge = 2
   RequestTimeout = 7
   RedemptionFaults = {"none", "events", "pending", "delay"}
